@@ -301,43 +301,37 @@ func FormatDate(s string) Tri {
 	return Yes
 }
 
-var reDT = regexp.MustCompile(`^(\d{4}-\d{2}-\d{2})T(\d{2}):(\d{2}):(\d{2})(\.\d{1,9})?(Z|[+-](\d{2}):(\d{2}))$`)
-var reDTLoose = regexp.MustCompile(`^\d{4}-\d{2}-\d{2}[Tt ]\d{2}:\d{2}:\d{2}`)
+var reDT = regexp.MustCompile(`^(\d{4}-\d{2}-\d{2})([Tt ])(\d{2}):(\d{2}):(\d{2})(\.\d+)?([Zz]|[+-](\d{2}):(\d{2}))$`)
 
+// FormatDateTime: the date-time production of RFC 3339 section 5.6 with its field ranges. Not
+// judged: a blank instead of "T" (the RFC lets applications use it "for readability"), and second
+// 60 (a leap second is valid only at the end of some months).
 func FormatDateTime(s string) Tri {
 	m := reDT.FindStringSubmatch(s)
 	if m == nil {
-		if !reDTLoose.MatchString(s) {
-			return No // not even date-time shaped (missing T, missing seconds, garbage)
-		}
-		// shaped like a date-time but outside the core grammar: missing offset is a clear No
-		rest := reDTLoose.ReplaceAllString(s, "")
-		if rest == "" {
-			return No // no offset at all
-		}
-		if strings.ContainsAny(s, "tz ") {
-			return Unknown // lower-case t/z, space separator: not judged
-		}
+		return No // not of the form date "T" time [fraction of 1+ digits] offset
+	}
+	if m[2] == " " {
 		return Unknown
 	}
 	if FormatDate(m[1]) != Yes {
 		return No
 	}
-	h, _ := strconv.Atoi(m[2])
-	mi, _ := strconv.Atoi(m[3])
-	sec, _ := strconv.Atoi(m[4])
-	if sec == 60 {
-		return Unknown // leap second: not judged
-	}
-	if h > 23 || mi > 59 || sec > 59 {
+	h, _ := strconv.Atoi(m[3])
+	mi, _ := strconv.Atoi(m[4])
+	sec, _ := strconv.Atoi(m[5])
+	if h > 23 || mi > 59 || sec > 60 {
 		return No
 	}
-	if m[6] != "Z" {
-		oh, _ := strconv.Atoi(m[7])
-		om, _ := strconv.Atoi(m[8])
+	if m[8] != "" {
+		oh, _ := strconv.Atoi(m[8])
+		om, _ := strconv.Atoi(m[9])
 		if oh > 23 || om > 59 {
-			return Unknown // offset range handling differs between RFC readings / Go versions
+			return No
 		}
+	}
+	if sec == 60 {
+		return Unknown
 	}
 	return Yes
 }
